@@ -11,7 +11,7 @@
    [map_values ko items = map snd items]). *)
 From Coq Require Import Lia Permutation.
 From Soy Require Import Model.Bytes Model.Num Model.Values Model.Outcome Model.Ast Model.MsgId Model.RefView Model.Checker
-  Model.Compile Generated.Tables Spec.Wf Spec.Determinism Spec.Safety Proofs.ValueProofs Proofs.CheckerProofs Proofs.CompileProofs Proofs.CompileFuelProofs.
+  Model.Compile Model.CheckerRun Generated.Tables Spec.Wf Spec.Determinism Spec.Safety Proofs.ValueProofs Proofs.CheckerProofs Proofs.CompileProofs Proofs.CompileFuelProofs.
 Open Scope N_scope.
 
 (* ------------------------------------------------------------------ *)
@@ -19,21 +19,6 @@ Open Scope N_scope.
 
 Definition conv_b (v : vbinding) : binding := {| b_name := vb_name v; b_let := vb_let v; b_used := vb_used v |}.
 Definition conv (st : tcs) : cstate := {| vars := map conv_b (tc_vars st); used_keys := tc_used st |}.
-
-Definition cls (e : check_err) : rej :=
-  match e with
-  | CKLetIj => RLetIj
-  | CKCallNotFound _ => RNoTemplate
-  | CKUndeclaredParams _ => RUndeclaredParam
-  | CKMissingParams _ _ => RMissingParam
-  | CKUnusedLets _ => RUnusedLet
-  | CKDataRefNotFound _ _ => RUnbound
-  | CKHeaderParam => RHeaderParam
-  | CKUnusedParams _ => RUnusedParam
-  | CKBadCallParam => RBadCallParam
-  | CKLoopFunc _ _ => RLoopFunc
-  | CKOutOfFuel => RShape
-  end.
 
 (* the two runs agree (an out-of-fuel run of the fuel model says nothing) *)
 Definition rel (r : check_err + tcs) (c : cres) : Prop :=
@@ -329,9 +314,6 @@ Proof.
       rewrite Hall. reflexivity.
 Qed.
 
-Definition verdict_of_failure (o : option (bstr * check_err)) : verdict :=
-  match o with None => Accept | Some (_, e) => Reject (cls e) end.
-
 Lemma check_templates_tie ko all ts : Forall (fun t => listed ko (t_node t)) ts ->
   verdict_of_failure (first_failure (check_template ko (find_template all)) ts) = check_templates all ts.
 Proof.
@@ -351,19 +333,6 @@ Proof. intros H. apply check_templates_tie. exact H. Qed.
    MapLiteralNode.Children() visits the keys in sorted order, whatever order Go's map iteration
    produces them in ([sorted_after ko0] for any permutation ko0), and the model lists the items of a
    map literal by strictly increasing key *)
-
-Fixpoint keys_sortedb (l : list bstr) : bool :=
-  match l with
-  | [] => true
-  | k :: r => match r with [] => true | k' :: _ => bstr_ltb k k' end && keys_sortedb r
-  end.
-Definition map_sorted (n : node) : bool :=
-  match n with
-  | NMapLit _ items => keys_sortedb (map fst items)
-  | NSoyDoc _ ps => forallb (fun c => match c with NSoyDocParam _ _ _ => true | _ => false end) ps   (* []*SoyDocParamNode *)
-  | _ => true
-  end.
-Definition maps_sorted (n : node) : bool := Spec.Safety.node_all map_sorted n.
 
 Lemma sorted_head_lt' r : forall k, keys_sortedb (k :: r) = true -> forall k', In k' r -> bstr_ltb k k' = true.
 Proof.
@@ -463,3 +432,6 @@ Proof.
   intros Hp Hs. apply check_data_refs_tie. apply Forall_forall. intros t Ht. apply listed_of_sorted; [exact Hp|].
   rewrite forallb_forall in Hs. exact (Hs t Ht).
 Qed.
+
+Corollary check_registry_c13_agrees reg : registry_maps_sorted reg = true -> check_registry_c13 reg = check_registry reg.
+Proof. intros H. apply (check_data_refs_models_agree (fun ks => ks)); [intros ks; apply Permutation_refl | exact H]. Qed.
